@@ -229,7 +229,12 @@ def load_check(name, case, rec):
     fld = fem.FieldPlaneStrain(region, dim=2) if dim == 2 else fem.Field(region, dim=3)
     fc = fem.FieldContainer([fld])
     um = make_umat(fem, case["mat"])
-    body = fem.SolidBody(um, fc)
+    # the documented item multiplier (e.g. a quarter model scaled to the full cross-section): the recorded force scales with it,
+    # whichever way the curve takes its forces
+    mult = (None, 2.0, 1.0, 0.5)[(case["jseed"] + case["n"][0] + len(case["ramp"])) % 4]
+    body = fem.SolidBody(um, fc, multiplier=mult)
+    if mult not in (None, 1.0):
+        rec.label("body-with-a-multiplier")
     axis = case["axis"] % dim
     L = float(size[axis])
     ramp = [v * L for v in case["ramp"]]
@@ -314,8 +319,8 @@ def load_check(name, case, rec):
         errs_ = []
         for lam in cands:
             P = P_diag(um, lam)
-            ref = P[0, 0] * A0
-            scale = max(abs(ref), A0 * modulus)  # force scale: reference area times the initial stiffness
+            ref = P[0, 0] * A0 * (1.0 if mult is None else mult)
+            scale = max(abs(ref), A0 * modulus * (1.0 if mult is None else mult))  # force scale: reference area times the initial stiffness
             errs_.append(abs(np.asarray(y)[axis] - ref) / scale)
         worst_f = max(worst_f, min(errs_))
         worst_x = max(worst_x, abs(np.asarray(x)[axis] - v))
